@@ -11,6 +11,31 @@ TECH = 'deterministic simulation with fault injection'
 
 # id -> (category, text, note, technique, design_ref)
 CHECKS = {
+    'C01': ('exploration',
+            'Invariants (record count, cell order and ids, every level present, node-of-level, root-to-leaf path by the '
+            'generator\'s own parent table, directly_assigned flags, no error for valid input) over simulated mapping '
+            'runs in which chunk size, worker count, result transport, completion order, pre-emption, temp names and '
+            'listing order are drawn per run by the seeded kernel. Sampled worlds/configurations/schedules: evidence, not proof.',
+            'the simulator decides which record reaches which cell: chunk size x worker count x completion order x result '
+            'transport (files vs result dir); taxonomy / marker / query generation is input generation with an in-memory '
+            'tree model. Trusted base: sim/kernel.py, sim/model.py (parent table).',
+            TECH + ': seeded schedules over chunked worker pools, invariant oracle on outputs', '5 C01'),
+    'C02': ('exploration',
+            'Refinement of a recorded history: wrappers at the randomness seam inside every simulated worker record chunk '
+            'cell ids, node gene lists, the matrices handed to the vote tally and every drawn subset; the oracle recomputes '
+            'votes, winner, share, mean winning correlation and runners-up from the INPUT files by gene name and the '
+            'recorded subsets (1e-9 ambiguity margin), never replaying the random stream.',
+            'the bootstrap draws are recorded at the randomness seam inside each simulated worker; the check is a refinement '
+            'of the recorded history against a reference model. Trusted base: recording wrappers (props/mapfam.py), '
+            'sim/model.py numerics.',
+            TECH + ': recorded randomness history checked against an executable reference model', '5 C02'),
+    'C03': ('exploration',
+            'Arithmetic invariants of the confidence fields evaluated on every record of every simulated mapping run '
+            '(iteration count 1, zero runners-up, more runners-up than siblings, single-child parents, inferred levels).',
+            'piggy-back: nothing beyond run diversity comes from the simulator: the invariant is evaluated on every record of '
+            'every simulated mapping run. The correlation of a single-child root (no real choice anywhere above) is accepted '
+            'for any value in [-1,1].',
+            TECH + ': invariant monitor over simulated runs', '5 C03'),
     'C04': ('exploration',
             'Seeded search over schedules: each scenario (stage x generated world x configuration incl. seed) is '
             'executed under several independently drawn simulated kernels (parked-fork scheduler deciding every '
@@ -22,6 +47,60 @@ CHECKS = {
             'the reduction argument that interleavings finer than one I/O seam event are equivalent while worker write '
             'sets are disjoint (monitored), exclusion of volatile metadata/log/config from digests.',
             TECH + ': seeded schedule search over forked workers parked on pipes, differential digests', '5 C04'),
+    'C06': ('exploration',
+            'Pairs of simulated mapping runs at bootstrap factor 1 (base query vs permuted / sub-set / extended / duplicated '
+            'rows) with chunk size, worker count, transport, encoding and schedule drawn independently per side; results '
+            'joined on cell id; ambiguous cells (margin < 1e-9) excluded and counted.',
+            'chunk size, worker count and schedule differ between the two sides of every pair; row permutation / subset '
+            'generation is input generation.',
+            TECH + ': metamorphic pairs executed under independent seeded schedules', '5 C06'),
+    'C07': ('exploration',
+            'Pairs of simulated mapping runs related by declared normalisation, per-cell scale, gene-column permutation, '
+            'extra genes, or a planted negative raw value (must raise, no results). Bitwise relations only where arithmetic '
+            'is order independent.',
+            'weak fit: the two sides of each pair run under independently drawn chunking and schedules; the relations '
+            'themselves are metamorphic input generation and would hold or fail identically under the OS scheduler.',
+            TECH + ': metamorphic pairs executed under independent seeded schedules (weak fit)', '5 C07'),
+    'C08': ('exploration',
+            'Same recorded history as C02 (gene list every worker saw at every node) plus the marker table of the output, '
+            'compared with a reconciliation model written from the property text; planted error clauses must end the run '
+            'with an error and no results.',
+            'decided on the recorded history of node gene lists seen by the simulated workers plus error-path runs; '
+            'reconciliation model from the property text (sim/model.py:reconcile_markers). min_markers >= 1.',
+            TECH + ': recorded history checked against an executable reference model', '5 C08'),
+    'C14': ('fault_enumeration',
+            'For each sampled (world, pooled stage) the grid worker x {SIGKILL, exit non-zero, raise} x {before, mid at the '
+            'k-th I/O seam event, after} is enumerated COMPLETELY, each cell under a freshly drawn random schedule; oracle: '
+            'the call raises, a failed mapping writes no results/CSV/success message but writes its log, other stages leave '
+            'nothing their real consumer accepts. Complete per world, sampled over worlds and schedules.',
+            'everything is decided by the simulator: stage x worker x failure mode x crash point, under random schedules. '
+            'Real SIGKILL / os._exit / exception in genuinely forked workers. Mid-way points are I/O seam events, not '
+            'arbitrary instructions.',
+            TECH + ': exhaustive per-world fault grid over forked workers, seeded schedules', '5 C14'),
+    'C15': ('exploration',
+            'On every successful simulated mapping run: CSV parsed with the csv module and compared with the JSON through '
+            'the generator\'s name tables; HDF5 read back and compared field by field; embedded taxonomy and marker table '
+            'compared with the input / the reconciliation model.',
+            'weak fit: evaluated on the three files of every simulated mapping run, including level-dropped/flattened runs; '
+            'the cross-format comparison is the oracle, the simulator contributes run diversity.',
+            TECH + ': cross-format oracle over simulated runs (weak fit)', '5 C15'),
+    'C17': ('exploration',
+            'Pairs with a common seed, the same chunks and independent schedules: drop_level=L vs a statistics file written '
+            'directly with a taxonomy that never had L; flatten vs a one-level taxonomy with the union marker list; unknown '
+            'level vs no drop. Bitwise comparison of all shared levels, ancestor check for the removed ones.',
+            'weak fit: both sides of each pair run under independent schedules and chunk-preserving worker counts with a '
+            'common seed; the pairing itself is the oracle.',
+            TECH + ': differential pairs executed under independent seeded schedules (weak fit)', '5 C17'),
+    'C19': ('exploration',
+            'Seeded search over histories of up to 6 stage runs sharing scratch and output directories, with injected worker '
+            'deaths, full disk, parent I/O errors, stale files planted under every name pattern the stages use, a complete '
+            'run nested at a yield point of another (concurrent runs), clock freezes/jumps. After every operation: inputs '
+            'byte-identical, scratch listing unchanged, new files only at requested outputs, result equal to a clean-room '
+            'run of the same operation.',
+            'everything is decided by the simulator: histories of stage runs sharing directories, stale files, failures, '
+            'nested concurrent runs, clock plans; clean-room reference run of the same op. Concurrent runs finer than one '
+            'nested complete run are not simulated.',
+            TECH + ': seeded histories with fault injection, footprint and clean-room differential oracles', '5 C19'),
 }
 
 NOT_BUILT_REASON = 'check not built yet (work in progress; see DESIGN.md section 5 for the planned design)'
